@@ -4,6 +4,7 @@ package main
 
 import (
 	"fmt"
+	"go/constant"
 	"go/token"
 	"go/types"
 	"strings"
@@ -308,6 +309,150 @@ func runC17(w *World, r *Report) {
 		r.ok("key-hash-covers-the-whole-key", "none", "-", "the repository supplies no key hash: the cache uses its own (FNV-1a over the whole key)")
 	}
 
+	// one cache, several kinds of records: every key is built by an encoder that puts the kind in front, and the kinds differ.
+	// A record kept under a bare caller-supplied string (the cached balance under the address) shares the key space of the
+	// index: whoever chooses that string chooses which record a write or a delete hits
+	r.rule("cache-key-spaces-are-disjoint", "every key the Hippocampus methods hand to the shared cache (Get / Set / Delete / Append) comes out of a key encoder of package cache — a function returning fmt.Sprintf(\"%s-%s\", <constant prefix>, …) — and the prefixes of the encoders are pairwise different: no record kind is addressed by a bare string of the caller", 9)
+	{
+		encPrefix := map[*ssa.Function]string{}
+		for _, fn := range fns {
+			if fn.Parent() != nil || fn.Signature.Recv() != nil || fn.Signature.Results().Len() != 1 {
+				continue
+			}
+			rets := returnsOf(fn)
+			if len(rets) != 1 {
+				continue
+			}
+			sc, ok := rets[0].Results[0].(*ssa.Call)
+			if !ok || calleeName(sc) != "fmt.Sprintf" {
+				continue
+			}
+			if k, ok := sc.Call.Args[0].(*ssa.Const); !ok || k.Value == nil || constant.StringVal(k.Value) != "%s-%s" {
+				continue
+			}
+			parts := sliceLitElems(sc.Call.Args[1])
+			if len(parts) != 2 {
+				continue
+			}
+			p0 := parts[0]
+			if mi, ok := p0.(*ssa.MakeInterface); ok {
+				p0 = mi.X
+			}
+			if k, ok := p0.(*ssa.Const); ok && k.Value != nil && k.Value.Kind() == constant.String {
+				encPrefix[fn] = constant.StringVal(k.Value)
+			}
+		}
+		seenPrefix := map[string]string{}
+		dup := ""
+		for fn, p := range encPrefix {
+			if other, ok := seenPrefix[p]; ok {
+				dup += fmt.Sprintf(" %s and %s both use the prefix %q;", other, shortFn(fn), p)
+			}
+			seenPrefix[p] = shortFn(fn)
+		}
+		r.check(dup == "" && len(encPrefix) >= 2, "cache-key-spaces-are-disjoint", "encoders", "-", fmt.Sprintf("%d key encoders with pairwise different constant prefixes", len(encPrefix)), dup)
+		for _, fn := range fns {
+			if fn.Signature.Recv() == nil && fn.Parent() == nil {
+				continue
+			}
+			top := fn
+			for top.Parent() != nil {
+				top = top.Parent()
+			}
+			if top.Signature.Recv() == nil || !strings.Contains(top.Signature.Recv().Type().String(), "Hippocampus") {
+				continue
+			}
+			instrsOf(fn, func(in ssa.Instruction) {
+				c, ok := in.(ssa.CallInstruction)
+				if !ok {
+					return
+				}
+				op := memCall(c)
+				if op != "Get" && op != "Set" && op != "Delete" && op != "Append" {
+					return
+				}
+				_, a := callArgs(c)
+				if len(a) == 0 {
+					return
+				}
+				var bare []string
+				var visit func(v ssa.Value, d int)
+				visit = func(v ssa.Value, d int) {
+					for _, o := range origins(v) {
+						switch x := o.(type) {
+						case *ssa.Call:
+							if cal := x.Call.StaticCallee(); cal != nil && encPrefix[cal] != "" {
+								continue
+							}
+							bare = append(bare, calleeName(x))
+						case *ssa.Parameter:
+							if (x.Parent() != top || x.Parent().Object() != nil && !x.Parent().Object().Exported()) && d < 2 && len(staticCallers(w, x.Parent())) > 0 { // a helper that is handed the key: what its callers pass
+								for _, cs := range staticCallers(w, x.Parent()) {
+									for k, p2 := range x.Parent().Params {
+										if p2 == x && k < len(cs.Common().Args) {
+											visit(cs.Common().Args[k], d+1)
+										}
+									}
+								}
+								continue
+							}
+							bare = append(bare, "the caller's string "+x.Name())
+						default:
+							bare = append(bare, pathOf(o))
+						}
+					}
+				}
+				visit(a[0], 0)
+				r.check(len(bare) == 0, "cache-key-spaces-are-disjoint", shortFn(top)+"/mem."+op+"("+pathOf(a[0])+")", lineOf(w, c), "the key is built by a key encoder", "the key is "+strings.Join(uniqStrings(bare), ", ")+": a string the caller chooses can be the key of an awaiting transaction or of an address list")
+			})
+		}
+	}
+
+	// reading a list whose entries are all there writes nothing: the cache is a ring per shard, every write appends a copy
+	// and pushes the oldest entries of that shard out — a read path that always writes turns polling into eviction of
+	// other parties' awaiting transactions
+	r.rule("consistent-list-is-read-without-writing", "ReadTransactions can return a non-nil list of transactions along a path on which no cache write (Set / Delete / Append) is executed: the rewrite of the list depends on something having been found missing", 1)
+	if rt := w.Func("cache", "Hippocampus", "ReadTransactions"); rt != nil {
+		clean := false
+		walkFrom(nil, rt.Blocks[0], nil, func(x ssa.Instruction) bool {
+			if c, ok := x.(ssa.CallInstruction); ok {
+				switch memCall(c) {
+				case "Set", "Delete", "Append":
+					return true
+				}
+				if h := samePkgHelper(rt, c); h != nil {
+					wr := false
+					for _, hf := range WithAnon(h) {
+						instrsOf(hf, func(y ssa.Instruction) {
+							if hc, ok := y.(ssa.CallInstruction); ok {
+								switch memCall(hc) {
+								case "Set", "Delete", "Append":
+									wr = true
+								}
+							}
+						})
+					}
+					if wr {
+						return true
+					}
+				}
+			}
+			if ret, ok := x.(*ssa.Return); ok && len(ret.Results) > 0 {
+				vals, zero := resultVals(ret, 0)
+				if !zero {
+					for _, v := range vals {
+						if k, isK := v.(*ssa.Const); !isK || k.Value != nil {
+							clean = true
+						}
+					}
+				}
+				return true
+			}
+			return false
+		})
+		r.check(clean, "consistent-list-is-read-without-writing", "ReadTransactions", w.Pos(rt.Pos()), "a read that finds every listed transaction leaves the cache untouched", "every path that returns a list passes a cache write: each poll of a list appends a copy of it to its shard and pushes older entries — other parties' awaiting transactions — out")
+	}
+
 	// the list of an address goes away only when it is empty
 	r.rule("index-key-deleted-only-when-empty", "a per-address list (a key built by encodeAddressKey) is deleted from the cache only behind the test that the list just read under that key is empty (len == 0): a shortcut that takes a short list for 'only the hash being removed' drops whatever else the list holds", 2)
 	nDel = 0
@@ -459,16 +604,41 @@ func runC17(w *World, r *Report) {
 	r.rule("repeated-save-writes-nothing", "in SaveAwaitedTransaction the edge on which the transaction's entry is found to exist reaches the return without any cache write", 1)
 	if sv := w.Func("cache", "Hippocampus", "SaveAwaitedTransaction"); sv != nil {
 		var firstGet ssa.CallInstruction
+		var existsEdges []Edge
 		instrsOf(sv, func(in ssa.Instruction) {
-			if c, ok := in.(ssa.CallInstruction); ok && firstGet == nil && memCall(c) == "Get" {
+			c, ok := in.(ssa.CallInstruction)
+			if !ok || firstGet != nil {
+				return
+			}
+			if memCall(c) == "Get" {
 				firstGet = c
+				existsEdges = passErrNil(c)
+				return
+			}
+			// the existence test in a read-only helper that answers (found bool, err error)
+			if h := samePkgHelper(sv, c); h != nil && h.Signature.Results().Len() >= 1 && isBoolType(h.Signature.Results().At(0).Type()) {
+				gets, wr := 0, 0
+				instrsOf(h, func(y ssa.Instruction) {
+					if hc, ok := y.(ssa.CallInstruction); ok {
+						switch memCall(hc) {
+						case "Get":
+							gets++
+						case "Set", "Delete", "Append":
+							wr++
+						}
+					}
+				})
+				if gets > 0 && wr == 0 {
+					firstGet = c
+					existsEdges = passBool(c, 0, true)
+				}
 			}
 		})
 		if firstGet == nil {
 			r.bad("repeated-save-writes-nothing", "SaveAwaitedTransaction/exists-test", w.Pos(sv.Pos()), "the existence test of the entry is found", "no Get")
 		} else {
 			writes := 0
-			for _, e := range passErrNil(firstGet) {
+			for _, e := range existsEdges {
 				walkFrom(nil, e.To(), nil, func(x ssa.Instruction) bool {
 					if c, ok := x.(ssa.CallInstruction); ok {
 						switch memCall(c) {
@@ -481,7 +651,7 @@ func runC17(w *World, r *Report) {
 					return isRet
 				})
 			}
-			r.check(writes == 0 && len(passErrNil(firstGet)) > 0, "repeated-save-writes-nothing", "SaveAwaitedTransaction/exists-edge", lineOf(w, firstGet), "the 'already exists' answer leaves the cache as it was", fmt.Sprintf("%d cache writes are reachable from the edge on which the entry exists", writes))
+			r.check(writes == 0 && len(existsEdges) > 0, "repeated-save-writes-nothing", "SaveAwaitedTransaction/exists-edge", lineOf(w, firstGet), "the 'already exists' answer leaves the cache as it was", fmt.Sprintf("%d cache writes are reachable from the edge on which the entry exists", writes))
 		}
 	}
 
@@ -699,7 +869,6 @@ func loopCarried(v ssa.Value, at *ssa.BasicBlock, seen map[ssa.Value]bool, d int
 	}
 	return ""
 }
-
 
 func isByte(t types.Type) bool {
 	b, ok := t.Underlying().(*types.Basic)
